@@ -255,6 +255,8 @@ pub trait Trivia {
   fn rule_sep(&mut self) -> String {
     "\n".into()
   }
+  /// entering / leaving the type inside `#6.<...>`
+  fn tag_type(&mut self, _enter: bool) {}
 }
 
 /// Canonical spacing: single spaces, commas between entries, one rule per line.
@@ -373,7 +375,9 @@ impl<'t> Printer<'t> {
       TagNum::Ty(t) => {
         self.out.push_str(".<");
         self.last_num = false;
+        self.tr.tag_type(true);
         self.ty(t);
+        self.tr.tag_type(false);
         self.pending = None;
         self.out.push('>');
       }
@@ -937,6 +941,9 @@ pub struct TapeTrivia<'a, 'b> {
   pub only_at: Option<Pos>,
   /// upper bound on the number of comments placed
   pub max_comments: Option<usize>,
+  /// no comments inside the type of `#6.<...>` (open finding C16-F1: kept as raw source text)
+  pub no_comments_in_tag_type: bool,
+  tag_depth: usize,
 }
 
 impl<'a, 'b> TapeTrivia<'a, 'b> {
@@ -954,6 +961,8 @@ impl<'a, 'b> TapeTrivia<'a, 'b> {
       placed: vec![],
       only_at: None,
       max_comments: None,
+      no_comments_in_tag_type: false,
+      tag_depth: 0,
     }
   }
   fn nl(&mut self) -> &'static str {
@@ -1004,6 +1013,9 @@ impl<'a, 'b> Trivia for TapeTrivia<'a, 'b> {
     let mut out = String::new();
     // weights: nothing / one blank dominate; the rest is the interesting part
     let mut k = self.tape.weighted(&[30, 40, 6, 8, if self.comments { 10 } else { 0 }, if self.tabs { 3 } else { 0 }]);
+    if k == 4 && self.no_comments_in_tag_type && self.tag_depth > 0 {
+      k = 1;
+    }
     if k == 4 {
       if self.no_comment_at.contains(&pos) {
         self.suppressed.push(pos);
@@ -1038,6 +1050,13 @@ impl<'a, 'b> Trivia for TapeTrivia<'a, 'b> {
       out.push(' ');
     }
     out
+  }
+  fn tag_type(&mut self, enter: bool) {
+    if enter {
+      self.tag_depth += 1;
+    } else {
+      self.tag_depth = self.tag_depth.saturating_sub(1);
+    }
   }
   fn comma(&mut self) -> bool {
     !self.tape.chance(1, 5)
